@@ -44,6 +44,21 @@ CHECKS = {
  "C03": ("exploration", "property-based testing, differential against an independent implementation (html5ever 0.39 tokenizer driven by its real tree builder)",
          "Generated tag soup over an adversarial fragment alphabet (HTML namespace) and documents from a well-nested foreign-content grammar, x capture sets x schedules: a successful strict run's full token stream (via TransformController) must equal html5ever's, an ambiguity error requires a text-mode start tag after <select>/<frameset>, and strict Ok implies an identical non-strict run.",
          "html5ever 0.39 + rcdom is the WHATWG reference; no character references/CR/NUL; annotation-xml and <p>/<li>/<a>/<td> inside integration points excluded because html5ever deviates from the specification there; three open findings excluded by construction.", "4/C03"),
+ "C07": ("exploration", "property-based testing against a reference model (R-edit reference editor over the generator's token layout)",
+         "Generated operation scripts (element, end-tag, comment, text, doctype, document-end edits split between several handlers) x structured documents x 36 encodings x schedules; the sink must equal the reference editor's rendering byte for byte (modified tags compared after re-tokenisation: names, attribute order, raw values, foreign self-closing flag).",
+         "R-edit implements the documented placement only; end-dependent operations are asserted only for elements closed by their own end tag; undefined call orders are not generated.", "4/C07"),
+ "C08": ("exploration", "property-based testing, round-trip / differential: re-parse of the output by html5ever and by lol-html itself",
+         "Adversarial strings (markup characters, terminators, entities, NUL/CR, non-BMP, unmappable) inserted as Text content, attribute value/name, tag name and comment text at 19 insertion points in Data/RCDATA/RAWTEXT/script/SVG/MathML/comment contexts and 36 encodings: re-parsing the output must give the original token structure plus exactly the inserted item; rejected calls leave the output byte-identical.",
+         "html5ever 0.39 is the re-parser; WHATWG preprocessing applied to expected text; set_tag_name within its documented precondition.", "4/C08"),
+ "C13": ("exploration", "property-based testing, differential against encoding_rs one-shot codecs in all 36 encodings",
+         "Strings read by handlers (text nodes incl. >1 KiB runs, malformed bytes, characters split by writes; comment text; names; attribute values) must equal the one-shot decode of the bytes at the reported range; inserted content must equal the one-shot encode with numeric references; <meta charset> switches once, right after the declaring tag, for later tokens only; non-ASCII-compatible encodings are refused.",
+         "encoding_rs whole-buffer decode_without_bom_handling / encode as the oracle.", "4/C13"),
+ "C17": ("exploration", "property-based differential testing of mirrored handler scripts (C entry points vs Rust API) under AddressSanitizer + LeakSanitizer, in a supervised child process",
+         "One generated script is interpreted through extern \"C\" declarations written from lol_html.h and through the Rust API: sink bytes, accessor values, return codes and error texts must match, every failure must leave a thread-local last error (and never a stale one, never visible to another thread), drop callbacks run exactly once; free orders permitted by the header are permuted; the child runs under ASan/LSan and an abort, unwind, sanitizer report or leak is attributed to the journaled case.",
+         "Histories the header forbids are not generated; falls back to a plain build if the nightly ASan build is unavailable (recorded in the evidence).", "4/C17"),
+ "C18": ("exploration", "property-based testing, metamorphic: concurrent / migrated instances vs their own sequential run",
+         "Batches of 16 rewriters (equal and different configurations, faults, tiny limits) run on 16 threads behind a barrier with generated yields, plus a send::HtmlRewriter moved to a new thread after every write and concurrent selector parsing; each instance's sink calls, events and errors must equal its sequential run.",
+         "The OS schedule is sampled, not controlled: detects shared mutable state, not a specific interleaving; C API thread-local errors are checked in C17.", "4/C18"),
 }
 PENDING = {}
 ALL = [f"C{i:02d}" for i in range(1, 19)]
@@ -76,8 +91,10 @@ def main():
             "add_only": True,
         },
         "engines": [
-            {"name": "lolv", "path": "/verif/harness", "serves_properties": [c["property_id"] for c in checks],
+            {"name": "lolv", "path": "/verif/harness", "serves_properties": [c["property_id"] for c in checks if c["property_id"] != "C17"],
              "kind_free_text": "proptest TestRunner over choice tapes (u16 vectors decoded into structured cases), 16 shards, shrinking, replay files, regression tier, known-finding classification"},
+            {"name": "lolv-capi", "path": "/verif/capi", "serves_properties": ["C17"],
+             "kind_free_text": "same proptest tape engine; mirrored-script interpreters for the C ABI (extern declarations from lol_html.h) and the Rust API; parent/child supervision with per-thread case journals; nightly AddressSanitizer+LeakSanitizer build"},
         ],
         "checks": checks,
         "not_applicable": na,
